@@ -1298,12 +1298,17 @@ pub fn run(cfg: &Cfg) -> Report {
   });
   let mut results = results.into_inner().unwrap();
   results.sort_by_key(|r| r.0);
+  // texts that were read as a model (whether it builds or not): candidates of the family `deploy-isolation`
+  let mut loaded: Vec<(String, String, bool)> = vec![];
   for (k, out) in results {
     let w = &works[k];
     let (bname, btext) = &bases[w.base];
     for (id, obs) in out {
       let (kind, at) = &w.meta[id];
       let key = format!("{}|{}|{}", bname, kind, at);
+      if (obs.stage == "ok" || obs.stage == "build-error") && btext.len() < 40_000 {
+        loaded.push((key.clone(), apply(btext, &w.cases[id].1), obs.stage == "ok"));
+      }
       rep.case(&key, id != 0);
       let family = kind.split(':').next().unwrap_or(kind).to_string();
       rep.hit(&format!("fault {} → {}", if kind.starts_with("pair:") { "pair" } else { kind }, obs.stage));
@@ -1321,6 +1326,9 @@ pub fn run(cfg: &Cfg) -> Report {
       }
     }
   }
+  degenerate(cfg, &mut rep);
+  multibyte(cfg, &mut rep, &bases, n_corpus);
+  deploy_isolation(cfg, &mut rep, &loaded);
   scale(cfg, &mut rep);
   let mut model = Model::start(&cfg.driver);
   shapes(cfg, &mut rng, &mut model, &mut rep);
@@ -2176,6 +2184,544 @@ fn shapes(cfg: &Cfg, rng: &mut Rng, model: &mut Model, rep: &mut Report) {
           rep.disagree(Kind::ImplVsSpec, "graph", &sig, &format!("invocable {} | {}", n, input), &format!("{:?}", o), "a value");
         }
       }
+    }
+  }
+}
+
+// ------------------------------------------------------------------------------------------
+// family `degenerate`: documents with nothing (or next to nothing) in them, through every loading entry point
+// ------------------------------------------------------------------------------------------
+
+#[derive(Clone, Copy, PartialEq, Debug)]
+enum Want {
+  /// no model can be read from the text: an error, never a model
+  Error,
+  /// a complete (if empty) model: it loads, builds, can be stored, deployed and asked
+  Usable,
+  /// a model or an error
+  Either,
+}
+
+/// A valid model with its own namespace and name; its decision `D` is `42` (written out).
+const VALID_NS: &str = "https://verif.example/c12/valid";
+const VALID_NAME: &str = "c12-valid";
+fn valid_model(ns: &str, name: &str, value: &str) -> String {
+  crate::c17::model_xml(ns, name, &format!(r##"<decision name="D" id="_d"><variable typeRef="number" name="D"/><literalExpression><text>{}</text></literalExpression></decision>"##, value))
+}
+
+/// Degenerate documents: the empty text, white space only, a byte order mark only, only a prolog, only a comment /
+/// processing instruction / document type, fragments of markup, a lone root element with nothing inside (of another
+/// name; `definitions` without its mandatory attributes; `definitions` with them) — each wrapped in every combination
+/// of a leading byte order mark / line break / blank / prolog and a trailing line break (LF, CRLF), blank, comment.
+fn degenerate_texts(thorough: bool) -> Vec<(String, String, Want)> {
+  const PROLOG: &str = r#"<?xml version="1.0" encoding="UTF-8"?>"#;
+  let mut cores: Vec<(String, Want)> = vec![];
+  for t in [
+    "", " ", "\n", "\r\n", "\r", "\t", "  \n \n", "\u{a0}", "\u{2028}", PROLOG, "<?xml version=\"1.0\"?>", "<?xml version=\"1.1\"?>", "<!-- no model here -->", "<!---->", "<?pi x?>", "<!DOCTYPE definitions>",
+    "<!DOCTYPE definitions [ <!ENTITY a \"b\"> ]>", "<", ">", "<?", "<?xml", "<?xml version=\"1.0\"", "<!--", "<!-- a", "<!DOCTYPE", "<![CDATA[x]]>", "x", "&amp;", "&", "</a>", "</definitions>", "<a", "<a/><b/>", "<a/>x", "\u{0}", "<definitions",
+    "<definitions namespace=\"ns\" name=\"m\"", "<definitions namespace=\"ns\" name=\"m\"/", "<definitions namespace=\"ns\" name=\"m\"></definition>", "<a/>", "<a></a>", "<model namespace=\"ns\" name=\"m\"/>", "<Definitions namespace=\"ns\" name=\"m\"/>",
+    "<definitions/>", "<definitions></definitions>", "<definitions> </definitions>", "<definitions>\n</definitions>", "<definitions><!-- c --></definitions>", "<definitions xmlns=\"https://www.omg.org/spec/DMN/20191111/MODEL/\"/>",
+    "<definitions namespace=\"ns\"/>", "<definitions name=\"m\"/>", "<definitions id=\"_1\"/>",
+  ] {
+    cores.push((t.to_string(), Want::Error));
+  }
+  cores.push((format!("{}<!-- c -->", PROLOG), Want::Error));
+  cores.push((format!("{}\n<!DOCTYPE definitions>\n<!-- c -->", PROLOG), Want::Error));
+  for t in [
+    "<definitions namespace=\"ns\" name=\"m\"/>",
+    "<definitions namespace=\"ns\" name=\"m\"></definitions>",
+    "<definitions namespace=\"ns\" name=\"m\"> </definitions>",
+    "<definitions namespace=\"ns\" name=\"m\">\n</definitions>",
+    "<definitions namespace=\"ns\" name=\"m\"><!-- c --></definitions>",
+    "<definitions namespace=\"ns\" name=\"m\" id=\"_1\"/>",
+    "<definitions namespace=\"ns\" name=\"m\" xmlns=\"https://www.omg.org/spec/DMN/20191111/MODEL/\"/>",
+    "<dmn:definitions namespace=\"ns\" name=\"m\" xmlns:dmn=\"https://www.omg.org/spec/DMN/20191111/MODEL/\"></dmn:definitions>",
+  ] {
+    cores.push((t.to_string(), Want::Usable));
+  }
+  for t in ["<definitions namespace=\"\" name=\"\"/>", "<definitions namespace=\" \" name=\" \"/>", "<definitions namespace=\"ns\" name=\"m\">", "<definitions namespace=\"ns\" name=\"m\">x</definitions>", "<definitions namespace=\"ns\" name=\"m\"><![CDATA[]]></definitions>"] {
+    cores.push((t.to_string(), Want::Either));
+  }
+  let prefixes: Vec<&str> = vec!["", "\u{feff}", "\n", " ", "<?xml version=\"1.0\" encoding=\"UTF-8\"?>\n", "\u{feff}<?xml version=\"1.0\" encoding=\"UTF-8\"?>"];
+  let suffixes: Vec<&str> = vec!["", "\n", "\r\n", "\r", " ", "\n\n", "\n<!-- end -->", "\n<!-- end -->\n"];
+  let mut out = vec![];
+  let mut seen = std::collections::HashSet::new();
+  for (core, want) in &cores {
+    for (pi, p) in prefixes.iter().enumerate() {
+      for (si, s) in suffixes.iter().enumerate() {
+        if !thorough && pi != 0 && si != 0 && (pi + si) % 3 != 0 {
+          continue; // quick: every prefix alone, every suffix alone, a third of the combinations
+        }
+        let text = format!("{}{}{}", p, core, s);
+        if !seen.insert(text.clone()) {
+          continue;
+        }
+        // a prolog is only a prolog at the very start of the text, and only once
+        let starts_with_decl = core.starts_with("<?xml");
+        let want = match want {
+          Want::Usable if (p.contains("<?xml") && starts_with_decl) => Want::Error,
+          Want::Usable if p.starts_with('\u{feff}') => Want::Either, // a byte order mark in front of a complete model: the XML reader's business
+          w => *w,
+        };
+        out.push((format!("{:?} + {:?} + {:?}", p, core, s), text, want));
+      }
+    }
+  }
+  out
+}
+
+fn degenerate(cfg: &Cfg, rep: &mut Report) {
+  use dmntk_workspace::Workspace;
+  let thorough = cfg.tier == "thorough";
+  let texts = degenerate_texts(thorough);
+  rep.extra.insert("degenerate_texts".into(), json!(texts.len()));
+  // (a) dmntk_model::parse → ModelEvaluator::new → evaluate_invocable, in child processes
+  let cases: Vec<(usize, Vec<(usize, usize, String)>)> = texts.iter().enumerate().map(|(i, t)| (i, vec![(0, 0, t.1.clone())])).collect();
+  let mut out = vec![];
+  run_cases("", &cases, &mut out);
+  let mut stage_of_text: Vec<String> = vec![String::new(); texts.len()];
+  for (id, obs) in out {
+    let (label, text, want) = &texts[id];
+    rep.case(&format!("degenerate|parse|{}", label), true);
+    rep.hit(&format!("degenerate {:?} → {}", want, obs.stage));
+    stage_of_text[id] = obs.stage.clone();
+    let input = format!("degenerate document {} = {:?}", label, text);
+    if let Some(sig) = signature("degenerate", &obs, text) {
+      rep.disagree(Kind::ImplVsSpec, "degenerate", &sig, &input, &format!("{} {}", obs.stage, obs.detail), "a model, or an error");
+      continue;
+    }
+    match (want, obs.stage.as_str()) {
+      (Want::Error, "ok") | (Want::Error, "build-error") => rep.disagree(Kind::ImplVsSpec, "degenerate", "degenerate: a text in which there is no model is read as a model", &input, &obs.stage, "an error of dmntk_model::parse"),
+      (Want::Usable, "parse-error") | (Want::Usable, "build-error") => rep.disagree(Kind::ImplVsSpec, "degenerate", "degenerate: a lone definitions element with namespace and name is not a usable model", &input, &obs.stage, "a model that builds"),
+      _ => {}
+    }
+  }
+  // (b) the workspace: add / replace / deploy / evaluate with a valid model stored next to the document; a directory
+  // of such files read by Workspace::new. Only texts whose child run ended (no process death).
+  let ctx = FeelContext::default();
+  for (i, (label, text, want)) in texts.iter().enumerate() {
+    if !matches!(stage_of_text[i].as_str(), "ok" | "build-error" | "parse-error") {
+      continue;
+    }
+    rep.case(&format!("degenerate|workspace|{}", label), true);
+    let r = util::guarded(|| -> Result<(), (String, String, String)> {
+      let mut w = Workspace::new(None);
+      let v = dmntk_model::parse(&valid_model(VALID_NS, VALID_NAME, "42")).map_err(|e| ("the valid model is not read".to_string(), e.to_string(), "Ok".to_string()))?;
+      w.add(v).map_err(|e| ("the valid model is not stored".to_string(), e.to_string(), "Ok".to_string()))?;
+      for round in 0..2 {
+        if let Ok(d) = dmntk_model::parse(text) {
+          let r = if round == 0 { w.add(d) } else { w.replace(d) };
+          if let Err(e) = r {
+            return Err((format!("degenerate: Workspace::{} refuses a model read from a lone definitions element although nothing of its namespace or name is stored", if round == 0 { "add" } else { "replace" }), e.to_string(), "Ok".to_string()));
+          }
+        } else if *want == Want::Usable {
+          return Err(("degenerate: a lone definitions element with namespace and name is not a usable model".to_string(), "Err".to_string(), "Ok".to_string()));
+        }
+        let _ = w.deploy();
+        match w.evaluate_invocable(VALID_NAME, "D", &ctx) {
+          Ok(v) if v.to_string() == "42" => {}
+          other => return Err(("degenerate: a valid model stored next to a degenerate document cannot be evaluated after deploy".to_string(), format!("{:?}", other.map(|v| v.to_string()).map_err(|e| e.to_string())), "42".to_string())),
+        }
+        if *want == Want::Usable {
+          // usable: asking the stored model for an invocable answers with a value
+          if let Err(e) = w.evaluate_invocable("m", "no such invocable", &ctx) {
+            return Err(("degenerate: a model read from a lone definitions element is not deployed".to_string(), e.to_string(), "a value".to_string()));
+          }
+        }
+      }
+      Ok(())
+    });
+    let input = format!("degenerate document {} = {:?} ;; Workspace: add(valid model), add(document), deploy, evaluate, replace(document), deploy, evaluate", label, text);
+    match r {
+      Err(_) => rep.disagree(Kind::ImplVsSpec, "degenerate", "degenerate: a workspace operation panics on a degenerate document", &input, "panic", "an answer"),
+      Ok(Err((sig, got, want))) => rep.disagree(Kind::ImplVsSpec, "degenerate", &sig, &input, &got, &want),
+      Ok(Ok(())) => {}
+    }
+  }
+  // a directory of `.dmn` files, every one a degenerate document, and the valid model: Workspace::new(Some(dir))
+  {
+    let mut dir = std::env::current_dir().unwrap_or_else(|_| std::env::temp_dir());
+    dir.push(".build");
+    dir.push("c12-tmp");
+    dir.push(format!("{}-degenerate", std::process::id()));
+    let _ = std::fs::remove_dir_all(&dir);
+    if std::fs::create_dir_all(&dir).is_ok() {
+      let mut n = 0;
+      for (i, (_, text, _)) in texts.iter().enumerate() {
+        if matches!(stage_of_text[i].as_str(), "ok" | "build-error" | "parse-error") && std::fs::write(dir.join(format!("{:04}.dmn", i)), text.as_bytes()).is_ok() {
+          n += 1;
+        }
+      }
+      let _ = std::fs::write(dir.join("valid.dmn"), valid_model(VALID_NS, VALID_NAME, "42"));
+      rep.case("degenerate|directory", true);
+      let d2 = dir.clone();
+      let r = util::guarded(move || {
+        let w = Workspace::new(Some(d2));
+        w.evaluate_invocable(VALID_NAME, "D", &FeelContext::default()).map(|v| v.to_string()).map_err(|e| e.to_string())
+      });
+      let input = format!("Workspace::new(Some(dir)) with dir holding {} degenerate documents (files NNNN.dmn, NNNN the index in the list of the family) and valid.dmn", n);
+      match r {
+        Err(_) => rep.disagree(Kind::ImplVsSpec, "degenerate", "degenerate: loading a directory that holds degenerate documents panics", &input, "panic", "a workspace"),
+        Ok(Ok(v)) if v == "42" => {}
+        Ok(other) => rep.disagree(Kind::ImplVsSpec, "degenerate", "degenerate: a valid model in a directory that also holds degenerate documents cannot be evaluated after loading", &input, &format!("{:?}", other), "42"),
+      }
+      let _ = std::fs::remove_dir_all(&dir);
+    }
+  }
+  // (c) the service: POST /definitions/add and /definitions/replace carrying the document
+  {
+    use crate::c18::{http, Server};
+    let mut server = match Server::start() {
+      Ok(s) => s,
+      Err(e) => {
+        rep.disagree(Kind::ImplVsSpec, "degenerate", "the service does not start on a loopback port", "start_server(127.0.0.1, free port)", &e, "a listening service");
+        return;
+      }
+    };
+    let port = server.port;
+    let js = Some("application/json");
+    let post = |path: &str, body: &str| -> Result<J, String> {
+      let a = http(port, "POST", path, js, body.as_bytes())?;
+      serde_json::from_slice::<J>(&a.body).map_err(|e| format!("the answer is not JSON ({}): {}", e, String::from_utf8_lossy(&a.body)))
+    };
+    let content = |t: &str| json!({"content": base64::encode(t)}).to_string();
+    // the valid model, stored and deployed, must stay answerable whatever is sent
+    let alive = |post: &dyn Fn(&str, &str) -> Result<J, String>| -> Result<(), String> {
+      post("/definitions/replace", &content(&valid_model(VALID_NS, VALID_NAME, "42")))?;
+      post("/definitions/deploy", "")?;
+      let a = http(port, "POST", &format!("/evaluate/{}/D", VALID_NAME), Some("text/plain"), b"{}")?;
+      let j = serde_json::from_slice::<J>(&a.body).map_err(|e| format!("not JSON: {}", e))?;
+      if j.get("data").map(|d| d.to_string()) == Some("42".to_string()) {
+        Ok(())
+      } else {
+        Err(format!("evaluate answers {}", j))
+      }
+    };
+    if let Err(e) = alive(&post) {
+      rep.disagree(Kind::ImplVsSpec, "degenerate", "degenerate: the service does not store, deploy and evaluate a valid model", "replace(valid model), deploy, evaluate", &e, "{\"data\":42}");
+      return;
+    }
+    let mut n_http = 0u64;
+    for (i, (label, text, want)) in texts.iter().enumerate() {
+      for path in ["/definitions/add", "/definitions/replace"] {
+        rep.case(&format!("degenerate|POST {}|{}", path, label), true);
+        n_http += 1;
+        let input = format!("degenerate document {} = {:?} ;; POST {} {{\"content\": base64 of the document}}", label, text, path);
+        match post(path, &content(text)) {
+          Err(e) => {
+            rep.disagree(Kind::ImplVsSpec, "degenerate", "degenerate: the service does not answer a definitions request carrying a degenerate document with a JSON document", &input, &format!("{} (process alive: {})", e, server.alive()), "a JSON document");
+            if let Err(e2) = alive(&post) {
+              rep.disagree(Kind::ImplVsSpec, "degenerate", "degenerate: after a definitions request carrying a degenerate document the service no longer answers the requests that follow", &input, &e2, "{\"data\":42}");
+              return;
+            }
+          }
+          Ok(j) => {
+            let is_data = j.get("data").is_some();
+            let is_err = j.get("errors").and_then(|e| e.as_array()).map(|a| !a.is_empty()).unwrap_or(false);
+            if *want == Want::Error && !is_err {
+              rep.disagree(Kind::ImplVsSpec, "degenerate", "degenerate: the service stores a text in which there is no model", &input, &j.to_string(), "an answer with the errors member");
+            } else if *want == Want::Usable && !is_data {
+              rep.disagree(Kind::ImplVsSpec, "degenerate", "degenerate: the service refuses a lone definitions element with namespace and name", &input, &j.to_string(), "an answer with the data member");
+            }
+            if is_data {
+              let _ = post("/definitions/remove", &json!({"namespace": "ns", "name": "m"}).to_string());
+              let _ = post("/definitions/remove", &json!({"namespace": "", "name": ""}).to_string());
+              let _ = post("/definitions/remove", &json!({"namespace": " ", "name": " "}).to_string());
+            }
+          }
+        }
+      }
+      if i % 64 == 63 || i + 1 == texts.len() {
+        if let Err(e) = alive(&post) {
+          rep.disagree(Kind::ImplVsSpec, "degenerate", "degenerate: after definitions requests carrying degenerate documents the service no longer answers the requests that follow", &format!("the documents up to {}", label), &e, "{\"data\":42}");
+          return;
+        }
+      }
+    }
+    rep.extra.insert("degenerate_http_requests".into(), json!(n_http));
+  }
+}
+
+// ------------------------------------------------------------------------------------------
+// family `multibyte`: characters of 2, 3 and 4 bytes in every attribute value and text the XML layer reads
+// ------------------------------------------------------------------------------------------
+
+const MB: [&str; 3] = ["\u{df}", "\u{3042}", "\u{1d49c}"];
+
+/// Variants of a string with a multi-byte character placed so that it covers a byte offset code might slice at:
+/// inserted at every byte offset 0..=8 from the start and 1..=4 from the end (where that is a character boundary),
+/// in widths 2, 3 and 4; the string replaced by `k` ASCII characters and one multi-byte character (k = 0..=8); the
+/// same with blanks around (trimmed before it is sliced).
+fn mb_variants(s: &str) -> Vec<(String, String)> {
+  let mut out = vec![];
+  let mut offsets: Vec<usize> = (0..=8usize).filter(|k| *k <= s.len()).collect();
+  for k in 1..=4usize {
+    if s.len() > k + 8 {
+      offsets.push(s.len() - k);
+    }
+  }
+  for k in offsets {
+    if !s.is_char_boundary(k) {
+      continue;
+    }
+    for (wi, ch) in MB.iter().enumerate() {
+      out.push((format!("insert@{}/{}", k, wi + 2), format!("{}{}{}", &s[..k], ch, &s[k..])));
+    }
+  }
+  for k in 0..=8usize {
+    let ch = MB[k % 3];
+    out.push((format!("replace@{}/{}", k, k % 3 + 2), format!("{}{}e", "a".repeat(k), ch)));
+    if k >= 3 && k <= 6 {
+      out.push((format!("replace-padded@{}/{}", k, (k + 1) % 3 + 2), format!(" {}{}e ", "a".repeat(k), MB[(k + 1) % 3])));
+    }
+  }
+  out
+}
+
+fn multibyte(cfg: &Cfg, rep: &mut Report, bases: &[(String, String)], n_corpus: usize) {
+  let thorough = cfg.tier == "thorough";
+  // bases: the two well-formed corpus models, and for every construct of the vocabulary the smallest shipped example
+  // that has it (thorough: every base up to 60 kB)
+  let mut chosen: Vec<usize> = vec![];
+  for (i, (n, _)) in bases.iter().enumerate().take(n_corpus) {
+    if n.contains("compound output") || n.contains("graph with a decision service") {
+      chosen.push(i);
+    }
+  }
+  if thorough {
+    for (i, (_, t)) in bases.iter().enumerate().skip(n_corpus) {
+      if t.len() < 60_000 {
+        chosen.push(i);
+      }
+    }
+  } else {
+    for key in ["DMNShape", "<invocation", "<relation", "<list", "<functionDefinition", "<import ", "<decisionService", "allowedValues", "<itemComponent", "<knowledgeSource", "<outputValues", "<context>", "<authorityRequirement", "typeLanguage", "<description"] {
+      let best = bases.iter().enumerate().skip(n_corpus).filter(|(_, (n, t))| n.ends_with(".dmn") && t.contains(key) && t.len() < 30_000).min_by_key(|(_, (_, t))| t.len());
+      if let Some((i, _)) = best {
+        if !chosen.contains(&i) {
+          chosen.push(i);
+        }
+      }
+    }
+  }
+  struct W {
+    base: usize,
+    cases: Vec<(usize, Vec<(usize, usize, String)>)>,
+    meta: Vec<String>,
+  }
+  let mut works: Vec<W> = vec![];
+  for &bi in &chosen {
+    let text = &bases[bi].1;
+    let doc = match scan(text) {
+      Some(d) => d,
+      None => continue,
+    };
+    let mut w = W { base: bi, cases: vec![], meta: vec![] };
+    let push = |w: &mut W, at: String, start: usize, end: usize| {
+      for (label, v) in mb_variants(&text[start..end]) {
+        w.cases.push((w.cases.len(), vec![(start, end, v)]));
+        w.meta.push(format!("multibyte:{}|{}", label, at));
+      }
+    };
+    for e in &doc.elems {
+      for a in &e.attrs {
+        if a.name.starts_with("xmlns") {
+          continue;
+        }
+        push(&mut w, format!("<{}> {}@{}", e.name, a.name, a.full_start), a.val_start, a.val_end);
+      }
+    }
+    for t in &doc.texts {
+      if text[t.start..].starts_with("<![CDATA[") {
+        continue;
+      }
+      push(&mut w, format!("text of <{}>@{}", doc.elems[t.parent].name, t.start), t.start, t.end);
+    }
+    works.push(w);
+  }
+  rep.extra.insert("multibyte_bases".into(), json!(works.len()));
+  rep.extra.insert("multibyte_cases".into(), json!(works.iter().map(|w| w.cases.len()).sum::<usize>()));
+  let n_threads = std::thread::available_parallelism().map(|n| n.get()).unwrap_or(4).min(16);
+  let results: Mutex<Vec<(usize, Vec<(usize, Obs)>)>> = Mutex::new(vec![]);
+  let next = std::sync::atomic::AtomicUsize::new(0);
+  // pieces of 400 cases, so that one big base does not keep a single thread busy
+  let mut pieces: Vec<(usize, usize, usize)> = vec![];
+  for (k, w) in works.iter().enumerate() {
+    let mut s = 0;
+    while s < w.cases.len() {
+      let e = (s + 400).min(w.cases.len());
+      pieces.push((k, s, e));
+      s = e;
+    }
+  }
+  std::thread::scope(|s| {
+    for _ in 0..n_threads {
+      s.spawn(|| loop {
+        let p = next.fetch_add(1, std::sync::atomic::Ordering::SeqCst);
+        if p >= pieces.len() {
+          break;
+        }
+        let (k, a, b) = pieces[p];
+        let w = &works[k];
+        let mut out = vec![];
+        run_cases(&bases[w.base].1, &w.cases[a..b], &mut out);
+        results.lock().unwrap().push((k, out));
+      });
+    }
+  });
+  let mut results = results.into_inner().unwrap();
+  results.sort_by_key(|r| r.0);
+  for (k, out) in results {
+    let w = &works[k];
+    let (bname, btext) = &bases[w.base];
+    for (id, obs) in out {
+      let meta = &w.meta[id];
+      rep.case(&format!("{}|{}", bname, meta), true);
+      rep.hit(&format!("multibyte → {}", obs.stage));
+      let faulted = apply(btext, &w.cases[id].1);
+      if let Some(sig) = signature("multibyte", &obs, &faulted) {
+        let input = format!("{} | {} | replacement {:?} | {}", bname, meta, w.cases[id].1[0].2, if faulted.len() < 6000 { faulted } else { format!("(text of {} bytes; edits {:?})", faulted.len(), w.cases[id].1) });
+        rep.disagree(Kind::ImplVsSpec, "multibyte", &sig, &input, &format!("{} {}", obs.stage, obs.detail), "a model, or an error");
+      }
+    }
+  }
+  // valid models whose names, type references and identifiers carry multi-byte characters, consistently: the model is
+  // usable and its decisions have the value written out here (42)
+  let mut type_names: Vec<String> = vec![];
+  for k in 0..=8usize {
+    for ch in MB {
+      type_names.push(format!("{}{}e", "a".repeat(k), ch));
+    }
+  }
+  for n in ["Gr\u{f6}\u{df}e", "Za\u{17c}\u{f3}\u{142}\u{107}", "tGr\u{f6}\u{df}e", "L\u{e4}nge", "Wysoko\u{15b}\u{107}", "\u{df}", "\u{1d49c}\u{1d49c}", "feel\u{df}number", "FEEL\u{3042}"] {
+    type_names.push(n.to_string());
+  }
+  let scope = dmntk_feel::Scope::default();
+  for (ti, t) in type_names.iter().enumerate() {
+    for (ii, input_name) in ["Len", "L\u{e4}nge"].iter().enumerate() {
+      for (di, id) in ["_i1", "_\u{ef}1", "_\u{3042}\u{1d49c}"].iter().enumerate() {
+        if !thorough && (ti + ii + di) % 2 == 1 && ti >= 27 + 5 {
+          continue;
+        }
+        let pad = if (ti + di) % 3 == 0 { " " } else { "" };
+        let xml = crate::c17::model_xml(
+          "https://verif.example/c12/multibyte",
+          "c12-multibyte",
+          &format!(
+            r##"
+  <itemDefinition name="{t}"><typeRef>{pad}number{pad}</typeRef></itemDefinition>
+  <itemDefinition name="{t}s" isCollection="true"><typeRef>{pad}{t}{pad}</typeRef></itemDefinition>
+  <inputData name="{i}" id="{id}"><variable name="{i}" typeRef="{t}"/></inputData>
+  <businessKnowledgeModel name="F" id="{id}f"><variable name="F"/><encapsulatedLogic><formalParameter name="a" typeRef="{t}"/><literalExpression typeRef="{t}"><text>a * 2</text></literalExpression></encapsulatedLogic></businessKnowledgeModel>
+  <decision name="D1" id="{id}d1"><variable name="D1" typeRef="{pad}{t}{pad}"/><informationRequirement><requiredInput href="#{id}"/></informationRequirement><literalExpression><text>{i} * 2</text></literalExpression></decision>
+  <decision name="D2" id="{id}d2"><variable name="D2" typeRef="{t}"/><informationRequirement><requiredInput href="#{id}"/></informationRequirement><knowledgeRequirement><requiredKnowledge href="#{id}f"/></knowledgeRequirement><literalExpression><text>F({i})</text></literalExpression></decision>
+  <decision name="D3" id="{id}d3"><variable name="D3" typeRef="{t}"/><informationRequirement><requiredInput href="#{id}"/></informationRequirement>
+    <decisionTable hitPolicy="UNIQUE"><input><inputExpression typeRef="{t}"><text>{i}</text></inputExpression></input><output typeRef="{t}"/><rule><inputEntry><text>-</text></inputEntry><outputEntry><text>{i} * 2</text></outputEntry></rule></decisionTable></decision>
+  <decision name="D4" id="{id}d4"><variable name="D4" typeRef="{t}s"/><informationRequirement><requiredDecision href="#{id}d1"/></informationRequirement><literalExpression><text>[D1]</text></literalExpression></decision>"##,
+            t = t,
+            i = input_name,
+            id = id,
+            pad = pad
+          ),
+        );
+        rep.case(&format!("multibyte|valid|{}|{}|{}|{:?}", t, input_name, id, pad), true);
+        let r = util::guarded(|| -> Result<Vec<String>, String> {
+          let defs = dmntk_model::parse(&xml).map_err(|e| format!("parse: {}", e))?;
+          let me = ModelEvaluator::new(&defs).map_err(|e| format!("build: {}", e))?;
+          let mut ctx = FeelContext::default();
+          let v = dmntk_feel_parser::parse_expression(&scope, "21", false).and_then(|n| dmntk_feel_evaluator::evaluate(&scope, &n)).map_err(|e| e.to_string())?;
+          ctx.set_entry(&Name::from(*input_name), v);
+          Ok(["D1", "D2", "D3", "D4"].iter().map(|d| me.evaluate_invocable(d, &ctx).to_string()).collect())
+        });
+        let input = format!("type name {:?}, input name {:?}, identifier {:?}, blanks around type references {:?} ;; {}", t, input_name, id, pad, xml);
+        match r {
+          Err(_) => rep.disagree(Kind::ImplVsSpec, "multibyte", "multibyte: loading or evaluating a valid model whose names carry multi-byte characters panics", &input, "panic", "D1 = D2 = D3 = 42, D4 = [42]"),
+          // an identifier outside ASCII makes `#id` a reference that is not a URI reference in the strict sense: an error is an answer
+          Ok(Err(_)) if !id.is_ascii() => rep.hit("multibyte: identifier outside ASCII → error"),
+          Ok(Err(e)) => rep.disagree(Kind::ImplVsSpec, "multibyte", "multibyte: a valid model whose names carry multi-byte characters is not usable", &input, &e, "D1 = D2 = D3 = 42, D4 = [42]"),
+          Ok(Ok(vs)) => {
+            if vs != vec!["42".to_string(), "42".to_string(), "42".to_string(), "[42]".to_string()] {
+              rep.disagree(Kind::ImplVsSpec, "multibyte", "multibyte: a valid model whose names carry multi-byte characters evaluates to other values than written", &input, &format!("{:?}", vs), "D1 = D2 = D3 = 42, D4 = [42]");
+            }
+          }
+        }
+      }
+    }
+  }
+}
+
+// ------------------------------------------------------------------------------------------
+// family `deploy-isolation`: a loaded text stored next to a valid model
+// ------------------------------------------------------------------------------------------
+
+/// Every text the fault enumeration found to be read as a model — building or not — is stored in a workspace next to
+/// a valid model, before it and after it, and is substituted by `replace`; after `deploy` the valid model answers
+/// with its value (written out: 42, then 43 for the substituted version): "a model that fails to build does not
+/// prevent the others from being deployed" (workspace.rs, `deploy`), seen from the loading side.
+fn deploy_isolation(cfg: &Cfg, rep: &mut Report, loaded: &[(String, String, bool)]) {
+  use dmntk_workspace::Workspace;
+  let thorough = cfg.tier == "thorough";
+  let mut rng = Rng::new(cfg.seed ^ 0x6465_706c_6f79);
+  let cap_bad = if thorough { 20_000 } else { 500 };
+  let cap_ok = if thorough { 2_000 } else { 100 };
+  let mut pick: Vec<&(String, String, bool)> = vec![];
+  let bad: Vec<&(String, String, bool)> = loaded.iter().filter(|l| !l.2).collect();
+  let good: Vec<&(String, String, bool)> = loaded.iter().filter(|l| l.2).collect();
+  for (pool, cap) in [(&bad, cap_bad), (&good, cap_ok)] {
+    if pool.len() <= cap {
+      pick.extend(pool.iter());
+    } else {
+      for _ in 0..cap {
+        pick.push(*rng.pick(pool));
+      }
+    }
+  }
+  rep.extra.insert("deploy_isolation_texts".into(), json!(pick.len()));
+  rep.extra.insert("deploy_isolation_texts_not_building".into(), json!(bad.len().min(cap_bad)));
+  let ctx = FeelContext::default();
+  let v42 = valid_model(VALID_NS, VALID_NAME, "42");
+  let v43 = valid_model(VALID_NS, VALID_NAME, "43");
+  for (key, text, builds) in pick {
+    rep.case(&format!("deploy-isolation|{}", key), true);
+    rep.hit(if *builds { "deploy-isolation: next to a model that builds" } else { "deploy-isolation: next to a model that does not build" });
+    let r = util::guarded(|| -> Result<(), (String, String, String)> {
+      let valid = |t: &str| dmntk_model::parse(t).map_err(|e| ("the valid model is not read".to_string(), e.to_string(), "Ok".to_string()));
+      let other = || dmntk_model::parse(text).ok();
+      let ask = |w: &Workspace, order: &str, want: &str| -> Result<(), (String, String, String)> {
+        match w.evaluate_invocable(VALID_NAME, "D", &ctx) {
+          Ok(v) if v.to_string() == want => Ok(()),
+          r => Err((format!("deploy-isolation: a valid model stored next to another loaded text cannot be evaluated after deploy ({})", order), format!("{:?}", r.map(|v| v.to_string()).map_err(|e| e.to_string())), want.to_string())),
+        }
+      };
+      // the text first
+      let mut w = Workspace::new(None);
+      if let Some(d) = other() {
+        let _ = w.add(d);
+      }
+      w.add(valid(&v42)?).map_err(|e| ("the valid model is not stored".to_string(), e.to_string(), "Ok".to_string()))?;
+      let _ = w.deploy();
+      ask(&w, "the text stored first", "42")?;
+      // substituted afterwards
+      let _ = w.replace(valid(&v43)?);
+      if let Some(d) = other() {
+        let _ = w.replace(d);
+      }
+      let _ = w.deploy();
+      ask(&w, "the valid model and the text substituted by replace", "43")?;
+      // the valid model first
+      let mut w = Workspace::new(None);
+      w.add(valid(&v42)?).map_err(|e| ("the valid model is not stored".to_string(), e.to_string(), "Ok".to_string()))?;
+      if let Some(d) = other() {
+        let _ = w.add(d);
+      }
+      let _ = w.deploy();
+      ask(&w, "the text stored last", "42")
+    });
+    let input = format!("{} ;; {}", key, if text.len() < 6000 { text.clone() } else { format!("(text of {} bytes)", text.len()) });
+    match r {
+      Err(_) => rep.disagree(Kind::ImplVsSpec, "deploy-isolation", "deploy-isolation: a workspace operation panics with a loaded text stored next to a valid model", &input, "panic", "42"),
+      Ok(Err((sig, got, want))) => rep.disagree(Kind::ImplVsSpec, "deploy-isolation", &sig, &input, &got, &want),
+      Ok(Ok(())) => {}
     }
   }
 }
